@@ -142,24 +142,31 @@ def random_case(ctx, idx, rng):
     chains = [chains[i] for i in perm]
     if not any(c.coeff != 0 for c in chains):
         chains[0].coeff = 1.0
-    zero_sum = not refs.chains_poly(chains, L, 0)
+    zero_sum = not refs.chains_poly(chains, L, oid_id0)
     ctx.case(('random', kind, f'L{min(L, 4)}', f'ops{nops}', 'sum-zero' if zero_sum else 'sum-nonzero', 'ids-default' if pool is None else f'ids{pool}'), nontrivial=True,
              sample={'L': L, 'chains': [(c.oids, c.qnums, c.coeff, c.istart) for c in chains[:8]]},
              info={'L': L, 'chains': [(c.oids, c.qnums, c.coeff, c.istart) for c in chains]})
-    g = check_chain_list(ctx, chains, L, 0, exact=exact)
+    g = check_chain_list(ctx, chains, L, oid_id0, exact=exact)
     if g is None:
         return
+    if idx % 4 == 0:
+        # history: the SAME chain objects with a coefficient / an operator changed in place, compiled again
+        c0 = chains[int(rng.integers(0, len(chains)))]
+        c0.coeff = c0.coeff * 2 + 0.5
+        if len(c0.oids) > 0 and rng.random() < 0.5:
+            c0.oids[0] = oid_id0 if c0.oids[0] != oid_id0 else (pool[1] if pool else 1)
+        check_chain_list(ctx, chains, L, oid_id0, exact=exact)
     # padded(): POST condition
     for c in chains[:3]:
-        p = c.padded(L, 0)
+        p = c.padded(L, oid_id0)
         ok = (p.istart == 0 and len(p.oids) == L and p.coeff == c.coeff and p.oids[c.istart:c.istart + len(c.oids)] == list(c.oids)
-              and all(o == 0 for o in p.oids[:c.istart] + p.oids[c.istart + len(c.oids):]) and len(p.qnums) == L + 1
+              and all(o == oid_id0 for o in p.oids[:c.istart] + p.oids[c.istart + len(c.oids):]) and len(p.qnums) == L + 1
               and p.qnums[c.istart:c.istart + len(c.qnums)] == list(c.qnums))
         ctx.ok('padded.post', ok, f'padded({L}) of {(c.oids, c.qnums, c.coeff, c.istart)} gave {(p.oids, p.qnums, p.coeff, p.istart)}', None)
     # a non-zero identity id
     if rng.random() < 0.3:
-        oid_id = 7
-        ch2 = [ptn.OpChain([7 if o == 0 else o for o in c.oids], c.qnums, c.coeff, c.istart) for c in chains]
+        oid_id = 777
+        ch2 = [ptn.OpChain([777 if o == oid_id0 else o for o in c.oids], c.qnums, c.coeff, c.istart) for c in chains]
         check_chain_list(ctx, ch2, L, oid_id, exact=exact)
 
 
